@@ -198,6 +198,29 @@ func SelfTest() error {
 			return fmt.Errorf("curlp model: hash of %s… is %s", v[0][:12], TritsToTrytes(out))
 		}
 	}
+	// the bit-sliced 64-lane variant agrees with the single-lane model
+	{
+		x := uint64(88172645463325252)
+		ins := make([][]int8, 64)
+		for j := range ins {
+			ins[j] = make([]int8, HashLen)
+			for i := range ins[j] {
+				x ^= x << 13
+				x ^= x >> 7
+				x ^= x << 17
+				ins[j][i] = int8(x%3) - 1
+			}
+		}
+		outs := Hash64(ins)
+		for j := range ins {
+			want := Hash(ins[j])
+			for i := range want {
+				if outs[j][i] != want[i] {
+					return fmt.Errorf("curlp model: bit-sliced lane %d differs from the single-lane model at trit %d", j, i)
+				}
+			}
+		}
+	}
 	// b1t6: every byte maps to the unique 6-trit group with its signed value
 	for b := 0; b < 256; b++ {
 		t := B1T6([]byte{byte(b)})
